@@ -34,7 +34,9 @@ RULE = ('streams: flags (every (colour type, presence pattern) row x flag tuples
         'placed at image / shared / per-frame level (15 % at two levels) x 3 flag tuples x selectors (index, negative index, name, unit, '
         'user-supplied VOILUTTransformation) x voi_output_range x output dtype, 15 % read back from a file), lut / palette (LUT objects: '
         'lengths 1..700, 255/256/257, 65535/65536/65537; first mapped values incl. refused ones), selectors and placement (exhaustive small '
-        'grids), objects (standalone transformation classes), paths (get_volume / get_total_pixel_matrix / get_volume_from_series).  One '
+        'grids), objects (standalone transformation classes), paths (get_volume / get_total_pixel_matrix / get_volume_from_series), asmcolour '
+        '(colour type x palette flag through get_total_pixel_matrix), window edges (pixels on and next to both edges of every window kind), '
+        'narrow (no transform x integer output types; L2 output-type rules and input type on real transform objects).  One '
         'case = one call judged against the reference pipeline; non-trivial = the call succeeds with at least one stage applied, distinct by '
         '(stages, placement, dtype, bits, signedness, image)')
 ASSUMPTIONS = [
@@ -44,7 +46,9 @@ ASSUMPTIONS = [
     'refusals the property does not speak about are tolerated and counted (histogram tolerated_refusals): integer / narrower output types '
     'that cannot hold the result, a VOI LUT behind a non-integer rescale or not starting on an integer stored value',
     'the ICC transform itself is littleCMS: the test profile exchanges the red and blue colorants so that its application is observable',
-    'constant VOI LUTs (max = min: numpy divides by zero) and window widths <= 1 (LINEAR) / <= 0 are outside the reference and skipped',
+    'constant VOI LUTs (max = min: numpy divides by zero) and window widths < 1 (LINEAR; PS3.3 demands >= 1, pydicom refuses, the library '
+    'computes with a negative divisor) / <= 0 (LINEAR_EXACT, SIGMOID) are outside the reference and skipped; width exactly 1 is inside '
+    '(the step), except behind a negative slope (open finding)',
     'pydicom decodes pixel data and DS/FD/US values as written by the generator',
 ]
 MODELLED_NOT_VERIFIED = ['numpy.exp / float rounding', 'ICC colour management (PIL ImageCms / littleCMS)',
